@@ -457,6 +457,36 @@ def run(case):
             cmp("axisymmetric/grad", "axisymmetric gradient incl. hoop term u_r/R", ga, ga_ref)
             cmp("axisymmetric/radius", "radius at quadrature points", fa.radius, xqa[1][None] if np.ndim(fa.radius) == 3 else xqa[1])
 
+    # ---- out= buffers with a history (zeros, garbage, NaN, the result of another evaluation mode) handed to the field methods:
+    #      the returned array must be the same values as without out=
+    if member in ("distorted", "curved") and not kind.startswith("lagrange") and dim in (2, 3):
+        fobjs = [("Field", fv)]
+        if dim == 2:
+            fobjs += [("FieldPlaneStrain", fps), ("FieldAxisymmetric", fa)]
+        for flab, fo in fobjs:
+            cont = fem.FieldContainer([fo])
+            calls = {
+                "grad()": lambda o=None, fo=fo: fo.grad(out=o),
+                "grad(sym=True)": lambda o=None, fo=fo: fo.grad(sym=True, out=o),
+                "interpolate()": lambda o=None, fo=fo: fo.interpolate(out=o),
+                "extract()": lambda o=None, fo=fo: fo.extract(out=o),
+                "extract(sym=True,add_identity=False)": lambda o=None, fo=fo: fo.extract(sym=True, add_identity=False, out=o),
+                "container.extract()": lambda o=None, cont=cont: cont.extract(out=None if o is None else [o])[0],
+            }
+            refs = {k_: np.array(fn_(), dtype=float, copy=True) for k_, fn_ in calls.items()}
+            for k_, fn_ in calls.items():
+                for hist in ("zeros", "garbage", "nan", "other-mode"):
+                    if hist == "other-mode":
+                        other = [v_ for kk, v_ in refs.items() if kk != k_ and v_.shape == refs[k_].shape]
+                        if not other:
+                            continue
+                        buf = other[0].copy() * 3.0 + 1.0
+                    else:
+                        buf = np.zeros_like(refs[k_]) if hist == "zeros" else np.full_like(refs[k_], 7.5 if hist == "garbage" else np.nan)
+                    got = np.asarray(fn_(buf), dtype=float)
+                    cnt["trans"] += 1
+                    cmp(f"out-history/{flab}/{k_}/out={hist}", f"{flab}.{k_} with an out= buffer that held other data returns the same values as without out=", got, refs[k_], nt=False)
+
     # ---- uniform-grid path
     # (the "affine" member is a uniform grid too: every cell is the same parallelepiped, not axis aligned)
     if (member in AXISPAR or member == "affine") and kind in ("quad", "hexahedron", "quad8", "quad9", "hexahedron20", "hexahedron27", "line"):
